@@ -460,3 +460,4 @@ func genCase(t *rapid.T) Case {
 var propCSRF = vk.Register(&vk.Prop[Case]{Property: property, Name: "history", Gen: genCase, Check: check, Quick: 25000, Thorough: 80000})
 
 func TestHistory(t *testing.T) { propCSRF.Run(t) }
+func FuzzHistory(f *testing.F) { propCSRF.Fuzz(f) }
